@@ -311,11 +311,27 @@ class Runner(object):
 
         class M(db.Entity):
             tag = orm.Required(str, unique=True)
-        self.M = M
+
+        class Hub(db.Entity):
+            spokes = orm.Set('Spoke')
+
+        class Spoke(db.Entity):
+            tag = orm.Required(str, unique=True)
+            hubs = orm.Set(Hub)
+        self.M, self.Hub, self.Spoke = M, Hub, Spoke
         self.path = os.path.join(self.scratch, 'sess.sqlite')
         db.bind('sqlite', self.path, create_db=True, timeout=0)
         db.generate_mapping(create_tables=True)
         procstate.register_db(db)
+        self.link_marks = self.case.get('marks') == 'links'
+        if self.link_marks:
+            # marks are many-to-many links between rows that exist already: a body that only links saves no
+            # object at all, its statements go to the link table alone
+            with db_session:
+                Hub()
+                for k in range(6):
+                    for n in range(1, 25):
+                        Spoke(tag='m%d_%d' % (k, n))
 
         def before_call(ev):
             if self.fault_armed and ev['kind'] == 'commit' and ev['phase'] == 'main':
@@ -329,7 +345,10 @@ class Runner(object):
             op = act[0]
             if op == 'mark':
                 self.marks += 1
-                self.M(tag='m%d_%d' % (k, self.marks))
+                if self.link_marks:
+                    self.Hub[1].spokes.add(self.Spoke.get(tag='m%d_%d' % (k, self.marks)))
+                else:
+                    self.M(tag='m%d_%d' % (k, self.marks))
             elif op == 'flush':
                 flush()
             elif op == 'commit':
@@ -545,7 +564,10 @@ def run_case(case, scratch):
         leftovers.append('db_session state leaked')
     con = simdb.raw_connect(r.path)
     try:
-        got = set(x[0] for x in con.execute('select tag from M').fetchall())
+        if r.link_marks:
+            got = set(x[0] for x in con.execute('select s.tag from Spoke s, Hub_Spoke l where l.spoke = s.id').fetchall())
+        else:
+            got = set(x[0] for x in con.execute('select tag from M').fetchall())
     finally:
         con.close()
     try:
@@ -596,7 +618,7 @@ def run_case(case, scratch):
         'violations': violations,
         'fired': c.fired,
         'digest': digest,
-        'sig': hsh([case.get('form'), case.get('opts'), case.get('script'), case.get('drive')]),
+        'sig': hsh([case.get('form'), case.get('opts'), case.get('script'), case.get('drive'), case.get('marks')]),
         'nontrivial': True,
         'probes': {'ambiguous_cases': int(exp.ambiguous), 'illegal_cases': int(bool(exp.illegal)),
                    'retries_executed': max(0, r.execs - 1), 'commit_fault_fired': len(c.fired),
@@ -623,9 +645,10 @@ def _shape(case):
                 walk(a[2])
     for s in case['script']:
         walk(s)
-    return 'retry=%s|allowed=%s|retry_exc=%s|flags=%s|events=%s|drive=%s' % (
+    return 'retry=%s|allowed=%s|retry_exc=%s|flags=%s|events=%s|drive=%s%s' % (
         opts.get('retry', 0), opts.get('allowed', 'none'), opts.get('retry_exc', 'default'),
-        ','.join(sorted((opts.get('flags') or {}).keys())) or '-', ','.join(raised[:4]) or '-', case.get('drive', '-'))
+        ','.join(sorted((opts.get('flags') or {}).keys())) or '-', ','.join(raised[:4]) or '-', case.get('drive', '-'),
+        '|marks=links' if case.get('marks') == 'links' else '')
 
 
 def shrink(case):
